@@ -166,6 +166,16 @@ struct C03Policy
                 it1_t it = b0 + i;
                 if (it - b0 != i) fail("it1:(b+i)-b", vh::S() << "i=" << i << " gives " << (it - b0));
                 if (i < n && refpos(*it) != P(i % w, i / w)) fail("it1:deref", vh::S() << "begin()+" << i);
+                {
+                    // the converting constructor (iterator of the mutable view -> iterator of the const view) keeps the whole position
+                    using CV = typename V::const_t; using cit_t = typename CV::iterator;
+                    CV cv(v); cit_t cb = cv.begin();
+                    cit_t cit(it);
+                    ++ctx.counters["it1_const_conversions"];
+                    if (cit - cb != i) fail("it1:const-conversion:distance", vh::S() << "i=" << i << " gives " << (cit - cb));
+                    if (!(cit == cb + i)) fail("it1:const-conversion:equal", vh::S() << "i=" << i);
+                    if (i < n && refpos(*cit) != P(i % w, i / w)) fail("it1:const-conversion:deref", vh::S() << "begin()+" << i);
+                }
                 if (i < n) { it1_t t = it; ++t; --t; if (!(t == it)) fail("it1:--(++it)", vh::S() << i); it1_t u = it; ++u; if (!(u == b0 + (i + 1))) fail("it1:++it==it+1", vh::S() << i); }
                 if (i > 0) { it1_t t = it; --t; if (!(t == b0 + (i - 1))) fail("it1:--it==it-1", vh::S() << i); }
                 for (long a = -i; a <= n - i; ++a)
